@@ -26,6 +26,28 @@ pub mod qwriter {
     use crate::spec_writer::*;
     use crate::message::writer::*;
 
+    /// src/rr/rdata/mod.rs `RdataTooLongError`.
+    #[derive(Debug)]
+    pub struct RdataTooLongError;
+
+    /// src/rr/rdata/mod.rs `impl<'a> TryFrom<&'a [u8]> for &'a Rdata`: "fails when the slice is longer
+    /// than u16::MAX octets", otherwise the same octets seen as RDATA.
+    impl<'a> TryFrom<&'a [u8]> for &'a Rdata {
+        type Error = RdataTooLongError;
+
+        #[verifier::external_body]
+        fn try_from(octets: &'a [u8]) -> (r: core::result::Result<Self, Self::Error>)
+            ensures
+                octets@.len() <= 65535 ==> r is Ok && r->Ok_0.octets() == octets@,
+                octets@.len() > 65535 ==> r is Err,
+        { unimplemented!() }
+    }
+
+    impl<'a> vstd::std_specs::convert::TryFromSpecImpl<&'a [u8]> for &'a Rdata {
+        open spec fn obeys_try_from_spec() -> bool { false }
+        open spec fn try_from_spec(v: &'a [u8]) -> core::result::Result<Self, RdataTooLongError> { arbitrary() }
+    }
+
     impl Rdata {
         /// src/rr/rdata/mod.rs `Rdata::octets`: the underlying octet slice.
         #[verifier::external_body]
